@@ -84,6 +84,18 @@ def _run(ctx):
             keys = [k for k in nonzero if T.VOIGT21[k] in ORTHO9 or rng.random() < 0.5]
         else:                # also list symmetry-forbidden components explicitly, carrying zeros
             keys = sorted(set(nonzero) | {k for k in range(21) if rng.random() < 0.3})
+        stray = False
+        if i % 4 == 3:
+            # the declared system is not a promise about the tensor: with ignore_residuals (or strays below the residual tolerance) the
+            # symmetry filling lets components through that the system forbids; C07 speaks about whatever stiffness is reported
+            forb = [k for k in range(21) if not numpy.any(B[k, :])]
+            if forb:
+                ks = [int(k_) for k_ in rng.choice(forb, size=min(len(forb), int(rng.integers(1, 4))), replace=False)]
+                f = f.copy()
+                for k_ in ks:
+                    f[..., k_] = float(rng.uniform(1, 10)) / U.GPA_PER_AU * float(rng.choice([-1, 1])) * (1 + 0.3 * numpy.linspace(0, 1, ntv))[None, :]
+                keys = sorted(set(keys) | set(ks))
+                stray = True
         order = rng.permutation(len(keys))
         keys = [keys[j] for j in order]
         adi = {c_(*T.VOIGT21[k]): f[..., k].copy() for k in keys}
@@ -102,6 +114,8 @@ def _run(ctx):
             sym["drop_atol"] = float(rng.choice([1e-4, 2e-3, 0.05]))
         elif i % 4 == 2:
             sym.update(residual_atol=float(rng.choice([0.01, 1.0])), ignore_rank=bool(i % 8 == 2), ignore_residuals=bool(i % 16 == 2))
+        if stray:
+            sym["ignore_residuals"] = True
         config = cij.io.apply_default_config({"elast": {"settings": {"symmetry": sym}}})
         calc = Calculator.__new__(Calculator)
         calc.__dict__.update(_modulus_keys=list(adi.keys()), modulus_adiabatic=adi, modulus_isothermal=iso,
@@ -172,7 +186,7 @@ def _run(ctx):
         kv, kr = numpy.asarray(vb.bulk_modulus_voigt), numpy.asarray(vb.bulk_modulus_reuss)
         aniso = bool(numpy.any(numpy.abs(kv - kr) > 1e-9 * numpy.abs(kv)) or
                      numpy.any(numpy.abs(numpy.asarray(vb.shear_modulus_voigt) - numpy.asarray(vb.shear_modulus_reuss)) > 1e-9 * numpy.abs(kv)))
-        ctx.evaluation(f"{system}|{['all-nonzero', 'subset', 'superset-with-zeros'][mode]}|symmetry-options:{['default', 'drop_atol', 'residual/ignore', 'default'][i % 4]}",
+        ctx.evaluation(f"{system}|{['all-nonzero', 'subset', 'superset-with-zeros'][mode]}|symmetry-options:{['default', 'drop_atol', 'residual/ignore', 'default'][i % 4]}" + ("|components-the-system-forbids" if stray else ""),
                        (system, i, tuple(sorted(keys))),
                        nontrivial=judged > 0 and aniso,
                        sample={"system": system, "grid": [nt, ntv], "components": ["c%d%d" % T.VOIGT21[k] for k in keys], "cell_mass": mass,
